@@ -15,7 +15,7 @@ def syms_text(syms):
     return "".join(SYMTEXT.get(s, s) for s in syms)
 
 
-SYMRAW = {"LF": "\n", "CR": "\r", "TAB": "\t", "NBSP": " ", "TSP": " ", "W2": " ", "W3": " ",
+SYMRAW = {"NSP": " ", "LF": "\n", "CR": "\r", "TAB": "\t", "NBSP": " ", "TSP": " ", "W2": " ", "W3": " ",
           "E2": "é", "L2": "é", "P3": "—", "E4": "😀", "BS": "\\", "DEG": "º", "QUOTE": '"', "SP": " "}
 
 
@@ -111,6 +111,13 @@ def fence_corpus(maxlines=4):
     # documents that do have a front matter: fence, 1..3 YAML lines, fence, 0..2 body lines
     yaml = ["k: v\n", "title: Bread\n", "é: ü\n", "tags: [a, b]\n"]
     body = ["step @a{1}\n", ">> m: n\n", "\n", "---\n"]
+    # the YAML text may start or end with blank / indented lines (its span must still be the input slice)
+    for lead in ["\n", "  \n", "\n\n", " k2: w\n", "é: ü\n\n"]:
+        for y in yaml + ["time: x\n", "servings: [1, 1]\n", "a: [\n"]:
+            for tail in ["", "\n", " \n"]:
+                t = "---\n" + lead + y + tail + "---\nstep\n"
+                out.append(dict(text=t, src="frontmatter"))
+                out.append(dict(text=t.replace("\n", "\r\n"), src="frontmatter"))
     for ny in range(1, 4):
         for ys in itertools.product(yaml, repeat=ny):
             for nb in range(0, 3):
@@ -163,6 +170,8 @@ def _corpus(ctx, want_fences=False):
     recs = lexer_corpus(ctx, ["MC_Lexer_quick.cfg"] if quick else ["MC_Lexer_full4.cfg", "MC_Lexer_reduced5.cfg"])
     if quick:
         recs += lexer_corpus(ctx, ["MC_Lexer_reduced4.cfg"])
+    # two narrow alphabets reach further: comment terminators behind runs of dashes, what follows a component
+    recs += lexer_corpus(ctx, ["MC_Lexer_cmt7.cfg", "MC_Lexer_notes5.cfg"])
     repo = repo_corpus()
     recs += repo
     recs += random_corpus(ctx, 3000 if quick else 60000, [r["text"] for r in repo])
@@ -283,6 +292,21 @@ def check_c03(ctx):
             raise
     obs = core.read_ndjson(pout)
     n, bad, _ = core.run_judge(ctx, "Trace_Api", pout)
+    # the inputs of the parser kernels (component, quantity, modifier, block, escape, path-like names): the pull parser
+    # under the kernels' extension subsets (judged by Trace_Parser), then the API programs under subsets that switch
+    # single gates (MODIFIERS alone, all but INTERMEDIATE / ADVANCED_UNITS / ALIAS+RANGE / TIMER_REQ+MODES, MODES alone)
+    from . import p_parser
+    kin = []
+    p_parser.conformance(ctx, "C03", collect=kin, with_documents=False)
+    pin2 = os.path.join(ctx.work, "in2.ndjson")
+    pout2 = os.path.join(ctx.work, "calls2.ndjson")
+    core.write_ndjson(pin2, [dict(input=x, src="parser-kernels") for x in kin])
+    core.run_harness(ctx, ["calls", "--in", pin2, "--programs", pprog, "--out", pout2, "--ext", "2,1770,3786,3298,64,2730",
+                           "--conv", "b", "--fixed", "2", "--rotate", "1"])
+    obs2 = core.read_ndjson(pout2)
+    n2, bad2, _ = core.run_judge(ctx, "Trace_Api", pout2)
+    bad = [(l, nm) for l, nm in bad] + [(len(obs) + l, nm) for l, nm in bad2]
+    obs = obs + obs2
     bad.sort(key=lambda b: len(obs[b[0] - 1]["input"]))
     for line, names in bad:
         x = obs[line - 1]
@@ -320,7 +344,10 @@ def replay_c03(ctx, case):
     pout = os.path.join(ctx.work, "calls.ndjson")
     core.write_ndjson(pin, [dict(text=c["text"])])
     core.write_ndjson(pprog, [dict(prog=p) for p in STANDARD_PROGRAMS] + [dict(prog=[k["c"] for k in c["calls"]])])
-    core.run_harness(ctx, ["calls", "--in", pin, "--programs", pprog, "--out", pout, "--ext", "none,all,compat",
+    if c.get("kind") == "parser":
+        from . import p_parser
+        return p_parser.replay(ctx, case, "C03")
+    core.run_harness(ctx, ["calls", "--in", pin, "--programs", pprog, "--out", pout, "--ext", "none,all,compat,2,1770,3786,3298,64,2730",
                            "--conv", "e,b", "--fixed", "4"])
     obs = core.read_ndjson(pout)
     n, bad, _ = core.run_judge(ctx, "Trace_Api", pout)
